@@ -739,9 +739,13 @@ def run(res, tier):
     res.rule("C16.1 in-group lookup: the returned position is dominated by `position != count` and `key at that position == query`; search over [0,count) with a comparator on the same key")
     res.rule("C16.2 tree lookup: pair returned only under iterator != end, first <= query <= last, successful in-group lookup of the same query in that group; groups searched by last index; fall-through empty")
     res.rule("C16.3 target/source tree forwards to the corresponding tree")
-    res.assumptions.append("only the soundness of positive answers is decided; completeness depends on sortedness (C07) and on TbfUtils::lower_bound_indexes, both value-level")
+    res.assumptions.append("soundness of positive answers, arithmetic fast paths and the binary-search helper (C16.4) are decided; completeness further depends on the sortedness of groups and cells (C07), which is a property of the construction, not of the lookups")
     for cls, name, cnt in INGROUP:
         ingroup(facts, cls, name, cnt, res)
+    res.rule("C16.4 the binary-search helper keeps first <= partition point <= first + count, probes only inside the range, makes progress and returns first: verification conditions of the loop body checked on every state with first 0..3, count 1..14 (completeness of the in-group lookups given sorted cells, C07, and the strict comparator, C16.1)")
+    import bsearch
+    nb = bsearch.check(facts, res, "C16.4.binary-search")
+    res.floor("C16.4", nb, 100, "states of the binary-search step")
     treelevel(facts, "findGroupWithCell", "cellBlocks", res)
     treelevel(facts, "findGroupWithLeaf", "particleGroups", res)
     for q, want in (("findGroupWithCellSource", "treeSource.findGroupWithCell(inLevel,inMIndex)"), ("findGroupWithCellTarget", "treeTarget.findGroupWithCell(inLevel,inMIndex)"),
